@@ -123,14 +123,26 @@ func c19Draw(r *vhRng) *c19Case {
 
 	// voters
 	k := 1 + r.Intn(6)
-	ids := []uint64{0, 1, 2, 3, 4, 5, 6}
+	pool := 7
+	if r.Chance(1, 12) { // enough voters for more than 12 precommits (pdqsort instead of insertion sort)
+		pool = 20
+		k = 10 + r.Intn(9)
+	}
+	byz := r.Chance(1, 10) // many equivocators: beyond the fault assumption
+	if byz && k < 4 {
+		k = 4 + r.Intn(3)
+	}
+	ids := make([]uint64, pool)
+	for i := range ids {
+		ids[i] = uint64(i)
+	}
 	for i := len(ids) - 1; i > 0; i-- {
 		j := r.Intn(i + 1)
 		ids[i], ids[j] = ids[j], ids[i]
 	}
 	ids = ids[:k]
 	sum := map[uint64]uint64{}
-	uniform := r.Chance(1, 2)
+	uniform := r.Chance(1, 2) || byz
 	for _, id := range ids {
 		w := uint64(1)
 		if !uniform {
@@ -156,7 +168,7 @@ func c19Draw(r *vhRng) *c19Case {
 		}
 	}
 	if r.Chance(1, 6) {
-		c.voters = append(c.voters, [2]uint64{uint64(7 + r.Intn(2)), 0}) // zero-weight stranger
+		c.voters = append(c.voters, [2]uint64{uint64(30 + r.Intn(2)), 0}) // zero-weight stranger
 	}
 	if r.Chance(1, 80) {
 		c.voters = nil
@@ -175,6 +187,9 @@ func c19Draw(r *vhRng) *c19Case {
 		}
 	}
 	focus := r.Intn(4) // 0: everybody on the target; 1,2: target or below; 3: anywhere
+	if byz {
+		focus = 3
+	}
 	pickBlk := func() uint64 {
 		switch {
 		case r.Chance(1, 40):
@@ -189,7 +204,7 @@ func c19Draw(r *vhRng) *c19Case {
 	}
 	part := ids
 	if r.Chance(1, 4) {
-		part = append(append([]uint64{}, ids...), uint64(7+r.Intn(2))) // a non-member votes too
+		part = append(append([]uint64{}, ids...), uint64(30+r.Intn(2))) // a non-member votes too
 	}
 	for _, id := range part {
 		if r.Chance(1, 8) {
@@ -198,7 +213,11 @@ func c19Draw(r *vhRng) *c19Case {
 		b := pickBlk()
 		pc := c19Pc{blk: b, num: c.num(b), id: id}
 		c.pcs = append(c.pcs, pc)
-		switch r.Intn(14) {
+		sel := r.Intn(14)
+		if byz && r.Chance(1, 2) {
+			sel = 2
+		}
+		switch sel {
 		case 0: // exact duplicate
 			c.pcs = append(c.pcs, pc)
 		case 1: // same vote, other signature: an equivocation for the tracker
@@ -252,7 +271,7 @@ func c19GenVC(r *vhRng) string {
 	c := c19Draw(r)
 	// non-members may carry any number: they are filtered before the base is chosen
 	for i := range c.pcs {
-		if c.pcs[i].id >= 7 && r.Chance(1, 3) {
+		if c.pcs[i].id >= 30 && r.Chance(1, 3) {
 			c.pcs[i].num = uint64(r.Intn(4))
 		}
 	}
